@@ -543,14 +543,23 @@ class DelimitedRowWriter(AbstractRowWriter):
 
         super().__init__(target, data_format)
         keywords = _as_delimited_keywords(data_format)
-        if data_format.line_delimiter != data.ANY:
-            # End lines as declared by the data format instead of the CSV writer's default.
-            keywords["lineterminator"] = data_format.line_delimiter
-        self._delimited_writer = _compat.csv_writer(self._target_stream, **keywords)
+        # Rows are rendered to an intermediate buffer using the CSV writer's default line terminator CR LF, which
+        # ensures that items containing CR or LF get quoted. Only then the line is ended as declared by the data format.
+        self._row_stream = io.StringIO(newline="")
+        self._delimited_writer = _compat.csv_writer(self._row_stream, **keywords)
+        if data_format.line_delimiter == data.ANY:
+            self._line_delimiter = "\r\n"
+        else:
+            self._line_delimiter = data_format.line_delimiter
 
     def write_row(self, row_to_write):
+        self._row_stream.seek(0)
+        self._row_stream.truncate()
+        self._delimited_writer.writerow(row_to_write)
+        row_text = self._row_stream.getvalue()
+        assert row_text.endswith("\r\n")
         try:
-            self._delimited_writer.writerow(row_to_write)
+            self._target_stream.write(row_text[:-2] + self._line_delimiter)
         except UnicodeEncodeError as error:
             raise errors.DataFormatError("cannot write data row: %s; row=%s" % (error, row_to_write), self.location)
         self._location.advance_line()
